@@ -275,7 +275,54 @@ def r08_f(prog: Program, chk: Check) -> None:
                f"{c['n']} calls, {c['bad']} failing" + (f"; smallest: {wit[0]}" if wit else ""), witness=wit)  # type: ignore[index]
 
 
+# ------------------------------------------------------------------- R08.g
+def r08_g(prog: Program, chk: Check) -> None:
+    from . import container_model as cmod
+
+    chk.rule(
+        "R08.g",
+        "a match that rests on Any is reported as such: can_assign of the container model (C03 R03.f / C04 R04.k: Value / KnownValue / TypedValue / MultiValuedValue / GenericValue / "
+        "SequenceValue / TypedDictValue.can_assign interpreted from their AST) is given Any on the right for every parameter type of its domain (object, classes, literals, unions, "
+        "containers, TypedDicts): whenever the type accepts Any and is not Any itself, ctx.record_any_used() has been called - that call is what makes OverloadedSignature.check_call "
+        "go on to the later overloads and answer Any[multiple_overload_matches] instead of the first overload's type - and in the `Any only matches Any` mode nothing but Any accepts it",
+        floor=2,
+    )
+    m = cmod.ContainerModel(prog)
+    silent, lenient, crashes, unsupported = [], [], [], []
+    n = 0
+    specs = list(cmod.type_specs()) + list(cmod.typeddict_specs())[::9]
+    for spec in specs:
+        if spec[0] == "any":
+            continue
+        d = {"parameter type": cmod.spec_str(spec), "argument": "Any"}
+        for exclude in (False, True):
+            n += 1
+            try:
+                r = m.can_assign(m.value_of(spec), m.any(), exclude_any=exclude)
+            except AnchorError as e:
+                unsupported.append({**d, "why": str(e)[:300]})
+                continue
+            if isinstance(r, tuple):
+                crashes.append({**d, "error": r[1]})
+            elif exclude and r:
+                lenient.append({**d, "mode": "Any only matches Any", "accepted": True})
+            elif not exclude and r and not m.last_used_any:
+                silent.append({**d, "accepted": True, "record_any_used called": False})
+            elif not exclude and not r:
+                crashes.append({**d, "error": "Any is rejected"})
+    chk.model_evaluations += n
+    site = prog.site("value", prog.find_method("TypedValue", "can_assign")[1])  # type: ignore[index]
+    for lst in (silent, lenient, crashes):
+        lst.sort(key=lambda x: len(x["parameter type"]))
+    chk.ob("R08.g", "value::any-match-model::an acceptance of Any is recorded", not silent, site, f"{len(specs)} parameter types, {len(silent)} accept Any without recording it" + (f"; smallest: {silent[0]}" if silent else ""), witness=silent[:5])
+    chk.ob("R08.g", "value::any-match-model::Any only matches Any when asked to", not lenient, site, f"{len(lenient)} parameter types accept Any in the exclude-Any mode" + (f"; smallest: {lenient[0]}" if lenient else ""), witness=lenient[:5])
+    chk.ob("R08.g", "value::any-match-model::no-crash", not crashes, site, f"{len(crashes)} crashes / rejections of Any" + (f"; first: {crashes[0]}" if crashes else ""), witness=crashes[:3])
+    if unsupported:
+        raise AnchorError(f"{len(unsupported)} parameter types cannot be modelled; first: {unsupported[0]}")
+
+
 def run(prog: Program, chk: Check) -> None:
     guard(chk, r08_e, prog, chk)
     guard(chk, r08_d, prog, chk)
     guard(chk, r08_f, prog, chk)
+    guard(chk, r08_g, prog, chk)
